@@ -25,7 +25,8 @@ TRUSTED_BASE = [
     "no extraction: the model is evaluated inside Coq by vm_compute on generated case files",
     "correspondence harness (Python): generators, type-exact encoder harness/coqenc.py, implementation runner",
     "modelled rather than verified: Layer P (CPython operators on JSON-like values, validated by pysem), copy.deepcopy/copy.copy, sorted, zip, inspect.signature, Python object protocol",
-    "outside the model: ruamel.yaml and json text, repr()/str() text, real thread schedules, float(str) parsing",
+    "outside the model: ruamel.yaml and json text, repr()/str() text (inputs of the report model Report.v, taken from the implementation per case), "
+    "real thread schedules, float(str) parsing, non-ASCII digits / case mapping",
 ]
 
 
